@@ -60,6 +60,10 @@ extern crate html5ever;
 #[macro_use]
 mod macros;
 
+#[cfg(feature = "verif_hooks")]
+#[doc(hidden)]
+pub mod verif_hooks;
+
 pub mod css;
 pub mod render;
 
@@ -671,12 +675,14 @@ impl RenderNode {
     ) -> SizeEstimate {
         // If it's already calculated, then just return the answer.
         if let Some(s) = self.size_estimate.get() {
+            verif_hook!(emit(crate::verif_hooks::Event::EstimateHit));
             return s;
         };
 
         use RenderNodeInfo::*;
 
         let recurse = |node: &RenderNode| node.calc_size_estimate(context, decorator);
+        verif_hook!(emit(crate::verif_hooks::Event::EstimateMiss));
 
         // Otherwise, make an estimate.
         let estimate = match self.info {
@@ -1231,8 +1237,10 @@ where
     };
     let mut pending_stack = Vec::new();
     loop {
+        verif_hook!(tick("tree_map_reduce"));
         // Get the next child node to process
         while let Some(h) = last.to_process.next() {
+            verif_hook!(tick("tree_map_reduce_child"));
             if let Some(f) = &last.prefn {
                 f(context, &h)?;
             }
@@ -1516,6 +1524,10 @@ fn process_dom_node<T: Write>(
                     context
                         .style_data
                         .computed_style(parent_style, _handle, use_doc_css);
+                #[cfg(all(feature = "css", feature = "verif_hooks"))]
+                if let Some(css::Display::None) = computed.display.val() {
+                    verif_hook!(emit(crate::verif_hooks::Event::Hidden));
+                }
                 #[cfg(feature = "css")]
                 match computed.display.val() {
                     Some(css::Display::None) => return Ok(Nothing),
@@ -2264,6 +2276,7 @@ fn render_table_tree<T: Write, D: TextDecorator>(
         let num_cols = col_widths.len();
         if num_cols > 0 {
             loop {
+                verif_hook!(tick("table_shrink"));
                 let cur_width = col_widths.iter().sum::<usize>() + num_cols - 1;
                 if cur_width <= width {
                     break;
@@ -2283,6 +2296,14 @@ fn render_table_tree<T: Write, D: TextDecorator>(
             }
         }
     }
+
+    verif_hook!(emit(crate::verif_hooks::Event::TableLayout {
+        vertical: vert_row,
+        avail: width,
+        col_widths: col_widths.clone(),
+        col_min: col_sizes.iter().map(|e| e.min_width).collect(),
+        col_size: col_sizes.iter().map(|e| e.size).collect(),
+    }));
 
     let table_width = if vert_row {
         width
